@@ -804,7 +804,8 @@ def end_to_end(ctx):
         opt = "--exact_inference" if q["type"] == "exact" else "--sample_time_until"
         truth = "enumeration of the joint law gives" if q["type"] == "exact" else "1/P(evidence) ="
         if not free:
-            got = sp.nsimplify(val)
+            import exppoly
+            got = exppoly.exact(val)   # never nsimplify an exact number: it 'identifies' rationals with radical products
             gotf = Fraction(int(got.p), int(got.q)) if got.is_Rational else None
             if gotf == c["want"]:
                 ctx.coverage["discharged"] += 1
